@@ -128,6 +128,19 @@ func c16Run(c c16Case) Verdict {
 	var closeErr, close2Err, noopErr, setupErr, envErr, dataCmdErr error
 	var consumed1, consumed2 int64
 	var wantRcpts []string
+	// settle: the server has come to rest. Over a transport without buffering
+	// "rest" includes being parked in a Write nobody reads yet (a reply the
+	// client has not asked for): waiting for more would be waiting for the
+	// watchdog; what follows shows as a flow-control stall or a desync.
+	settle := func(w *harness.Wire) {
+		if !c.Sync {
+			w.WaitQuiet()
+			return
+		}
+		r.Hub.WaitUntil(func() bool {
+			return w.S.BlockedInReadLocked() || w.S.BlockedInWriteLocked() || w.S.ClosedLocked()
+		}, harness.Watchdog)
+	}
 	ok := withClient(r, c.LMTP, func(cl *smtp.Client, w *harness.Wire) {
 		if c.Prior {
 			if err := cl.Mail("prior@x", nil); err != nil {
@@ -170,7 +183,7 @@ func c16Run(c c16Case) Verdict {
 				wantRcpts = append(wantRcpts, rcptAddr(i))
 			}
 			closeErr = cl.SendMail(sender, wantRcpts, bytes.NewReader(c.Body))
-			w.WaitQuiet()
+			settle(w)
 			consumed1 = w.S.Consumed()
 			c.CloseTwice = false
 			noopErr = cl.Noop()
@@ -222,10 +235,10 @@ func c16Run(c c16Case) Verdict {
 			prev = s
 		}
 		if c.StaleClose && priorWriter != nil {
-			w.WaitQuiet()
+			settle(w)
 			before := w.S.Consumed()
 			staleErr = priorWriter.Close()
-			w.WaitQuiet()
+			settle(w)
 			staleWrote = w.S.Consumed() - before
 			staleDone = true
 		}
@@ -234,11 +247,11 @@ func c16Run(c c16Case) Verdict {
 			return
 		}
 		closeErr = wc.Close()
-		w.WaitQuiet()
+		settle(w)
 		consumed1 = w.S.Consumed()
 		if c.CloseTwice {
 			close2Err = wc.Close()
-			w.WaitQuiet()
+			settle(w)
 			consumed2 = w.S.Consumed()
 		}
 		noopErr = cl.Noop()
